@@ -15,6 +15,7 @@ type allocState struct {
 	lookupState
 	hit    bool
 	writer *nullWriter
+	primes []*http.Request // concrete matching requests interleaved with the request under test
 }
 
 func SetupC16Alloc() any {
@@ -33,6 +34,32 @@ func SetupC16Alloc() any {
 	st.set = set
 	st.r = r
 	st.ref = newRefRouter(set)
+	// interleaved traffic: trailing-slash and direct matches of other routes (fewest parameters first), so that
+	// buffers of the recycled context are left in the state another request shape produces
+	for want := 0; want <= 3 && len(st.primes) < 3; want++ {
+		for _, rt := range set.Routes {
+			if rt.Pattern[0] != '/' {
+				continue
+			}
+			var ps []kv
+			for _, t := range tokens(rt.Pattern) {
+				if t.kind != tkStatic {
+					ps = append(ps, kv{t.name, "q"})
+				}
+			}
+			if len(ps) != want {
+				continue
+			}
+			direct, _ := substitute(rt.Pattern, ps)
+			if hasEmptySegment(direct) || direct == "/" {
+				continue
+			}
+			st.primes = append(st.primes, &http.Request{Method: rt.Method, URL: &url.URL{Path: toggleSlash(direct)}})
+			if len(st.primes) >= 3 {
+				break
+			}
+		}
+	}
 	return st
 }
 
@@ -50,9 +77,16 @@ func HarnessC16Alloc(st any) {
 	sym.Assume(!hasEmptySegment(path))
 	req := &http.Request{Method: method, Host: host, URL: &url.URL{Path: path}}
 
-	// warm-up: the same request once (pooled contexts exist afterwards)
-	s.hit = false
-	s.r.ServeHTTP(s.writer, req)
+	// one round = the interleaved concrete requests, then the request under test
+	round := func() {
+		for _, p := range s.primes {
+			s.r.ServeHTTP(s.writer, p)
+		}
+		s.hit = false
+		s.r.ServeHTTP(s.writer, req)
+	}
+	// warm-up: one full round (pooled contexts exist afterwards, buffers have been through every shape)
+	round()
 	if !s.hit {
 		return // not a matching request (404 etc. is outside the statement)
 	}
@@ -64,13 +98,13 @@ func HarnessC16Alloc(st any) {
 	}
 	if sym.Symbolic() {
 		before := sym.AllocMark()
-		s.r.ServeHTTP(s.writer, req)
+		round()
 		after := sym.AllocMark()
 		sym.Assert(after == before, msg)
 		return
 	}
 	if nativeAllocs != nil {
-		n := nativeAllocs(func() { s.r.ServeHTTP(s.writer, req) })
+		n := nativeAllocs(round)
 		sym.Assert(n == 0, msg)
 	}
 }
